@@ -6,6 +6,7 @@ The parser can be invoked standalone:
     python -m odml.tools.xmlparser file.odml
 """
 import csv
+import io
 import sys
 
 from os.path import basename, exists
@@ -286,6 +287,17 @@ class XMLReader(object):
         :param xml_file: file path to an XML input file or file like object.
         :returns: a parsed odml.Document.
         """
+        # lxml refuses text streams that carry an XML encoding declaration (as every
+        # saved odML file does); read the text and hand it over like a string.
+        if isinstance(xml_file, io.TextIOBase):
+            try:
+                text = xml_file.read()
+            except UnicodeDecodeError as exc:
+                raise ParserException(str(exc))
+            finally:
+                xml_file.close()
+            return self.from_string(text)
+
         try:
             root = ET.parse(xml_file, self.parser).getroot()
             if hasattr(xml_file, "close"):
